@@ -81,6 +81,8 @@ type Op struct {
 	Mu     *sync.Mutex
 	Wait   []*Task
 	Site   string // fault site key, filled by yield
+	contended bool
+	Fn     string // library function making the call (lock ops)
 }
 
 type wakeMsg struct {
@@ -179,6 +181,7 @@ type Sim struct {
 	now      int64 // simulated clock, nanoseconds since base
 	maxSteps int
 	stuck    bool
+	deadlockAt string
 }
 
 func gid() int64 {
@@ -312,9 +315,10 @@ func (s *Sim) enabled(t *Task) bool {
 	switch op.Kind {
 	case opStart:
 		for _, dep := range t.After {
-			d := s.byID[dep]
-			if d != nil && !d.done {
-				return false
+			for _, d := range s.tasks {
+				if (d.ID == dep || strings.HasPrefix(d.ID, dep+".")) && !d.done {
+					return false
+				}
 			}
 		}
 		return true
@@ -323,6 +327,10 @@ func (s *Sim) enabled(t *Task) bool {
 			return true
 		}
 		h := s.locks[op.Srv+"|"+op.ID]
+		if h != nil && h != t && !op.contended {
+			op.contended = true
+			s.probe("lock-contention")
+		}
 		return h == nil
 	case opMutex:
 		return s.mutexes[op.Mu] == nil
@@ -458,6 +466,62 @@ func (s *Sim) describeDeadlock() {
 		case t.pending != nil && t.pending.Kind == opStart:
 			parts = append(parts, fmt.Sprintf("%s not started (after %v)", t.ID, t.After))
 		}
+	}
+	// wait-for graph; the site names only the tasks on a cycle, not bystanders queued behind it
+	next := map[*Task][]*Task{}
+	for _, t := range s.tasks {
+		if !t.started || t.done || t.running || t.pending == nil {
+			continue
+		}
+		switch t.pending.Kind {
+		case opLock:
+			if h := s.locks[t.pending.Srv+"|"+t.pending.ID]; h != nil {
+				next[t] = append(next[t], h)
+			}
+		case opMutex:
+			if h := s.mutexes[t.pending.Mu]; h != nil {
+				next[t] = append(next[t], h)
+			}
+		case opAwait:
+			for _, w := range t.pending.Wait {
+				if !w.done {
+					next[t] = append(next[t], w)
+				}
+			}
+		}
+	}
+	onCycle := func(t *Task) bool {
+		seen := map[*Task]bool{}
+		stack := append([]*Task(nil), next[t]...)
+		for len(stack) > 0 {
+			x := stack[len(stack)-1]
+			stack = stack[:len(stack)-1]
+			if x == t {
+				return true
+			}
+			if seen[x] {
+				continue
+			}
+			seen[x] = true
+			stack = append(stack, next[x]...)
+		}
+		return false
+	}
+	fns := map[string]bool{}
+	for _, t := range s.tasks {
+		if t.pending != nil && !t.done && onCycle(t) {
+			switch t.pending.Kind {
+			case opLock:
+				fns[t.pending.Fn] = true
+			case opMutex:
+				fns["mutex"] = true
+			}
+		}
+	}
+	if len(fns) == 0 {
+		s.deadlockAt = "blocked-outside-seam"
+	} else {
+		s.deadlockAt = "lock:" + strings.Join(sortedKeys(fns), "+")
 	}
 	s.logEv(Event{Task: "-", Kind: "DEADLOCK", Res: strings.Join(parts, "; ")})
 }
